@@ -407,7 +407,7 @@ impl Property for C44 {
         "the mapping PTP(TAI) -> NTP timestamp used to recognise the source of a measurement is seconds + 2208988800 - 37 modulo 2^32 with nanoseconds scaled to 2^-32 s",
     ];
     const QUICK_CASES: u32 = 600_000;
-    const THOROUGH_CASES: u32 = 10_000_000;
+    const THOROUGH_CASES: u32 = 23_000_000;
 
     fn strategy(_tier: Tier) -> BoxedStrategy<Case> {
         let delivery = (prop_oneof![6 => 0u16..30, 2 => 0u16..400, 1 => 0u16..2000], what_strategy(), prop_oneof![8 => ts_strategy().prop_map(Some), 1 => Just(None)])
